@@ -322,10 +322,28 @@ def cases(draw):
     return c
 
 
+def long_cases():
+    """Messages of many fragments (one segment or one fragment per segment), plain and TLS, built-in and external loop."""
+    for nfrag in (9, 16, 17, 18, 32, 33, 34, 64, 65, 100, 257):
+        for op in (rm.TEXT, rm.BINARY):
+            frags = [{"fin": int(j == nfrag - 1), "op": op if j == 0 else rm.CONT, "p": ("p%d;" % j).encode()} for j in range(nfrag)]
+            tail = [{"fin": 1, "op": rm.TEXT, "p": b"after"}, {"fin": 1, "op": rm.PING, "p": b"pg"}]
+            for k, (secure, external) in enumerate(((False, False), (True, False), (False, True), (True, True))):
+                if (nfrag + k + op) % 2:
+                    continue
+                yield {"segments": [[0.5, frags + tail]], "callbacks": CBS, "raise_in": [], "secure": secure, "external": external, "echo": False, "hs_delay": 0.0}
+                yield {"segments": [[0.5 + 0.01 * j, [f]] for j, f in enumerate(frags)] + [[0.5 + 0.01 * nfrag + 1.0, tail]], "callbacks": CBS, "raise_in": [], "secure": secure,
+                       "external": external, "echo": False, "hs_delay": 0.0}
+
+
 def jobs(tier, seed):
     n, shards = (2400, 8) if tier == "quick" else (160000, 16)
-    return [{"name": f"hyp-{i}", "kind": "hyp", "seed": seed * 1000 + i, "n": n // shards} for i in range(shards)]
+    return [{"name": f"hyp-{i}", "kind": "hyp", "seed": seed * 1000 + i, "n": n // shards} for i in range(shards)] + [{"name": "long-messages", "kind": "long"}]
 
 
 def run_job(job, coll):
+    if job["kind"] == "long":
+        for c in long_cases():
+            coll.check(c, run_case)
+        return
     hyp_run(coll, cases(), run_case, job["seed"], job["n"])
